@@ -10,7 +10,9 @@
 From Coq Require Import ZArith List String Bool.
 From HV Require Import Model.SexpDefs Gen.GenRefine Spec.SmtQuerySpec Model.SmtTextModel
   Model.SolveModel Proofs.SolveProofs
-  Model.SolveFsDefs Gen.GenSolveFs Model.SolveFsModel Proofs.SolveFsProofs Proofs.SolveTieProofs.
+  Model.SolveFsDefs Gen.GenSolveFs Model.SolveFsModel Proofs.SolveFsProofs Proofs.SolveTieProofs
+  Model.CexDefs Gen.GenCexHandler Model.CexModel Proofs.CexProofs
+  Model.PathQueryDefs Gen.GenPathQuery Model.PathQueryModel Proofs.PathQueryProofs.
 From HV Require Spec.VerdictSpec Gen.GenSolveDispatch.
 Import ListNotations.
 Open Scope Z_scope.
@@ -179,6 +181,87 @@ Example C04_stale_files_nonvacuous :
   fst (solve_e2e_fs solver (fun s => s) false c [("0.smt2"%string, stale); ("0.smt2.out"%string, "sat"%string)]) =
     (Some (OSat true ("sat" ++ nl ++ "(define-fun p_x_uint256_00 () (_ BitVec 256) #x2b)")), 1) /\
   dump_name (refine_ctx (fun s => s) c) = "0.refined.smt2"%string.
+Proof. vm_compute. repeat split; reflexivity. Qed.
+
+(* ---- which conditions reach the solver (Gen/GenPathQuery.v: Path.to_smt2 / extend_path from
+   sevm.py).  A path spans transactions; the path of a later transaction (or of a test after
+   setUp) extends a sliced one and its incremental solver only holds part of the conditions.
+   For every sequence of appends, slices (keeping ANY set of indices) and extensions, the query
+   asserts exactly the conditions the executed path assumed, with and without --cache-solver *)
+Theorem C04_query_asserts_every_path_condition :
+  forall (cond : Type) (norm : cond -> cond) (skip : list cond -> cond -> bool) ops cache,
+    q_query cond (q_run cond norm skip (q_empty cond) ops) cache = assumed cond norm skip [] ops.
+Proof. exact query_all_assumed. Qed.
+Print Assumptions C04_query_asserts_every_path_condition.
+
+(* hence a model of the query satisfies every condition of every transaction of the sequence *)
+Theorem C04_query_model_satisfies_path :
+  forall (cond : Type) (norm : cond -> cond) (skip : list cond -> cond -> bool)
+         (env : Type) (sem : env -> cond -> Prop) ops cache e,
+    Forall (sem e) (q_query cond (q_run cond norm skip (q_empty cond) ops) cache) <->
+    Forall (sem e) (assumed cond norm skip [] ops).
+Proof. exact query_all_assumed_sem. Qed.
+Print Assumptions C04_query_model_satisfies_path.
+
+(* the path's own solver would not do: it misses what the slice did not keep *)
+Example C04_solver_is_not_the_path :
+  let p := q_run nat (fun c => c) (fun _ _ => false) (q_empty nat)
+             [QAppend nat 7%nat; QSlice nat []; QExtend nat []; QAppend nat 9%nat] in
+  q_conds nat p = [7; 9]%nat /\ q_solver nat p = [9]%nat /\ q_sliced nat p = None.
+Proof. exact solver_misses_conditions. Qed.
+
+(* ---- from a solver output to the reported list (Gen/GenCexHandler.v: CounterexampleHandler
+   from __main__.py).  The dispatch of _solve_end_to_end_callback is `classify` *)
+Theorem C04_callback_dispatch :
+  forall early_exit o, gen_callback_verdict early_exit o = classify o.
+Proof. exact callback_is_classify. Qed.
+Print Assumptions C04_callback_dispatch.
+
+(* once the solver executor is shut down (first valid counterexample under --early-exit, exit
+   handlers) the solvers still running are killed: whatever the future then holds - a result
+   parsed from a cut output included - nothing is reported *)
+Theorem C04_nothing_reported_after_shutdown :
+  forall early_exit f, gen_callback_verdict early_exit (gen_get_solver_output true f) = NoModel.
+Proof. exact nothing_after_shutdown. Qed.
+Print Assumptions C04_nothing_reported_after_shutdown.
+
+(* a killed solver leaves a prefix of its answer (any k1, k2) and is only killed after the
+   shutdown flag is set: a counterexample reported as valid was parsed from a COMPLETE output that
+   mentions no abstraction *)
+Theorem C04_valid_cex_from_complete_output :
+  forall early_exit is_shutdown killed k1 k2 core_hit is_refined out1 changes out2,
+    (killed = true -> is_shutdown = true) ->
+    gen_callback_verdict early_exit
+      (gen_get_solver_output is_shutdown
+         (FRes (fst (solve_e2e core_hit is_refined (observed killed k1 out1) changes (observed killed k2 out2)))))
+      = ValidCex ->
+    is_shutdown = false /\ killed = false /\
+    exists s k, solve_e2e core_hit is_refined out1 changes out2 = (OSat true s, k) /\
+                contains invalid_marker s = false /\ (s = out1 \/ s = out2).
+Proof. exact valid_cex_from_complete_output. Qed.
+Print Assumptions C04_valid_cex_from_complete_output.
+
+(* the executor is shut down by the handler only for a valid counterexample under --early-exit *)
+Theorem C04_shutdown_only_after_valid :
+  forall early_exit o,
+    gen_callback_shutdown early_exit o = true -> early_exit = true /\ gen_callback_verdict early_exit o = ValidCex.
+Proof. exact shutdown_only_after_valid. Qed.
+Print Assumptions C04_shutdown_only_after_valid.
+
+(* why the result itself cannot be trusted then: a cut output mentions only what the complete one
+   mentions, and may stop before the abstraction is mentioned - it then looks valid *)
+Theorem C04_cut_output_mentions_less :
+  forall m k s, contains m (prefix k s) = true -> contains m s = true.
+Proof. exact prefix_contains. Qed.
+Print Assumptions C04_cut_output_mentions_less.
+
+Example C04_cut_output_looks_valid :
+  let full := ("sat" ++ nl ++ "(define-fun p_x_uint256_00 () (_ BitVec 256) #x2a)" ++ nl ++
+               "(define-fun f_evm_bvmul_256 ((x!0 (_ BitVec 256)) (x!1 (_ BitVec 256))) (_ BitVec 256) #x00)")%string in
+  contains invalid_marker full = true /\
+  from_result (prefix 60 full) = OSat true (prefix 60 full) /\
+  gen_callback_verdict true (gen_get_solver_output false (FRes (from_result (prefix 60 full)))) = ValidCex /\
+  gen_callback_verdict true (gen_get_solver_output true (FRes (from_result (prefix 60 full)))) = NoModel.
 Proof. vm_compute. repeat split; reflexivity. Qed.
 
 Example C04_nonvacuous :
